@@ -27,7 +27,7 @@ ASSUMPTIONS = [
     'asyncio.sleep vs time.sleep is the expected difference in which sleep function is used; only the arguments are compared',
 ]
 SHARDS = {'quick': 4, 'thorough': 16}
-TIMEOUT = {'quick': 600, 'thorough': 3000}
+TIMEOUT = {'quick': 900, 'thorough': 3600}
 ANCHORS = [
     ('pjrpc/server/dispatcher.py', 'Dispatcher.dispatch'), ('pjrpc/server/dispatcher.py', 'AsyncDispatcher.dispatch'),
     ('pjrpc/server/dispatcher.py', 'Dispatcher._handle_request'), ('pjrpc/server/dispatcher.py', 'AsyncDispatcher._handle_request'),
